@@ -1,7 +1,7 @@
 (* C01: render_fits by structural induction over renderable trees. *)
 From RichModel Require Import Prelude Cells Segments Ratio Frames Layout SpecLayout.
 From RichModel Require Table Wrap SpecTable.
-From RichProofs Require Import CellsP SegmentsP RatioP TableP FramesP FramesP2 LayoutP LayoutP2 LayoutP8 LayoutP9 LayoutP3 LayoutP4 LayoutP5 LayoutP6.
+From RichProofs Require Import CellsP SegmentsP RatioP TableP FramesP FramesP2 LayoutP LayoutP2 LayoutP8 LayoutP9 LayoutP10 LayoutP3 LayoutP4 LayoutP5 LayoutP6.
 From Coq Require Import ZifyBool.
 
 Definition ro_ok (ro : ropts) : Prop := ro_overflow ro <> Some Wrap.OV_IGNORE.
